@@ -400,6 +400,10 @@ func init() {
 			return Const(32, 0x40000000)
 		},
 
+		// math/rand/v2.Uint64 (seeds batchskl's PCG): a fixed seed; tower heights then follow the
+		// real PCG code deterministically
+		"math/rand/v2.Uint64": func(m *Machine, fr *frame, a []Value) Value { return Const(64, 0x9E3779B97F4A7C15) },
+
 		// rawalloc.New(len, cap): uninitialised bytes (modelled as zero, like make)
 		"github.com/cockroachdb/pebble/internal/rawalloc.New": func(m *Machine, fr *frame, a []Value) Value {
 			ln, cp := term(a[0]), term(a[1])
